@@ -38,7 +38,10 @@ class Cfg:
     registrars: (name, meter, pre, unreg[, kept]); tusers: (name, tracer, pre[, kept])."""
 
     def __init__(self, name, minst=1, creators=(), registrars=(), tinst=0, tusers=(), xkinds=(), xscripts=None,
-                 recs=1, spans=1, uses=1):
+                 recs=1, spans=1, uses=1, refuse_reg=(), refuse_inst=(), invokers=(), shared_obs=False, shape="atomic"):
+        # refuse_*: names the delegate SDK refuses; invokers: (name, callback); shared_obs / shape: deviation switches
+        self.refuse_reg, self.refuse_inst, self.invokers = list(refuse_reg), list(refuse_inst), list(invokers)
+        self.shared_obs, self.shape = shared_obs, shape
         one = lambda v: [["r1"]] * v if isinstance(v, int) else [list(x) for x in v]
         self.name, self.minst, self.creators, self.registrars = name, one(minst), list(creators), list(registrars)
         self.tinst, self.tusers, self.xkinds, self.recs, self.spans, self.uses = one(tinst), list(tusers), list(xkinds), recs, spans, uses
@@ -67,6 +70,9 @@ class Cfg:
             "TUSERS": tset(u[0] for u in self.tusers), "PRET": tset(u[0] for u in self.tusers if u[2]),
             "TRACEROF": tfun([(u[0], u[1]) for u in self.tusers]), "XKINDS": tset(self.xkinds),
             "SCRIPT": script, "KEPT": tset(self.kept()),
+            "REFUSEREG": tset(self.refuse_reg), "REFUSEINST": tset(self.refuse_inst),
+            "INVOKERS": tset(v[0] for v in self.invokers), "CBOF": tfun(self.invokers),
+            "SHAREDOBS": "TRUE" if self.shared_obs else "FALSE", "SHAPE": '"%s"' % self.shape,
             "RECSPER": self.recs, "SPANSPER": self.spans, "USESPER": self.uses,
             "PATCHED": "TRUE" if patched else "FALSE", "ALLOWKNOWN": "TRUE" if known else "FALSE"}
 
@@ -78,7 +84,12 @@ class Cfg:
         ps += [dict(name=g[0], kind="registrar", meter=g[1], pre=g[2], unreg=g[3], kept=g[0] in kept) for g in self.registrars]
         ps += [dict(name=u[0], kind="tuser", tracer=u[1], pre=u[2], n=self.spans, kept=u[0] in kept) for u in self.tusers]
         ps += [dict(name="xu." + k, kind="xuser", x=k, n=self.uses) for k in self.xkinds]
+        ps += [dict(name=v[0], kind="invoker", target=v[1], n=1) for v in self.invokers]
         return ps
+
+    def scenario(self, script, **kw):
+        return dict(name="sim-" + self.name, script=script, procs=self.procs(), perturb=0.0,
+                    refuseReg=self.refuse_reg, refuseInst=self.refuse_inst, **kw)
 
 
 C = lambda n, m="m1", pre=False, kept=False: (n, m, pre, kept)
@@ -95,7 +106,20 @@ FAMILY_QUICK = [
     Cfg("m-race-self-r2", minst=[["r1"], ["self", "r2"]], creators=[C("c1", pre=True), C("c2")]),
     Cfg("t-self-r1-r2+self", minst=0, tinst=[["self", "r1", "r2"], ["self"]], tusers=[U("u1", pre=True), U("u2", "t2"), U("u3", kept=True)]),
     Cfg("x-prop-eh+m", creators=[C("c1", pre=True)], registrars=[G("g1", pre=True, unreg=False)], xkinds=["prop", "eh"],
-        xscripts={"prop": ["self", "r1"], "eh": ["r1", "r2"]}, uses=2),
+        xscripts={"prop": ["self", "r1"], "eh": ["r1", "r2"]}, uses=1),
+    # faults during the hand-over (the delegate refuses callback g1 and instrument c1) and overlapping invocations of g2
+    Cfg("m-refuse-invoke", creators=[C("c1", pre=True)],
+        registrars=[G("g1", pre=True), G("g2", pre=True, unreg=False), G("g3", unreg=False)],
+        refuse_reg=["g1"], refuse_inst=["c1"], invokers=[("n1", "g2"), ("n2", "g2"), ("n3", "g1")]),
+]
+# shape switches: TLC must exhibit the deviations (Contract / *Connected violated), and the repaired shape is clean
+DEVIATIONS = [
+    ("split-tracer", Cfg("dev-split-tracer", minst=0, tinst=1, tusers=[U("u1", pre=True), U("u2")], shape="split"), True),
+    ("split-meter", Cfg("dev-split-meter", creators=[C("c1", pre=True), C("c2")], registrars=[G("g1", unreg=False)], shape="split"), True),
+    ("recheck-tracer", Cfg("dev-recheck-tracer", minst=0, tinst=1, tusers=[U("u1", pre=True), U("u2"), U("u3", "t2")], shape="recheck"), False),
+    ("recheck-meter", Cfg("dev-recheck-meter", creators=[C("c1", pre=True), C("c2")], registrars=[G("g1", unreg=False)], shape="recheck"), False),
+    ("shared-observer", Cfg("dev-shared-observer", registrars=[G("g1", pre=True, unreg=False)], invokers=[("n1", "g1"), ("n2", "g1")],
+                            shared_obs=True), True),
 ]
 FAMILY_THOROUGH = [
     Cfg("m-c3-g1", creators=[C("c1", pre=True), C("c2"), C("c3", "m2")], registrars=[G("g1", pre=True)], recs=2),
@@ -160,6 +184,27 @@ DIRECTED = [
                                                 "xi.prop@set:3", "xi.eh@set:3", "xu.prop@use:2", "xu.eh@use:2"],
          procs=[dict(name="xi.prop", kind="xinst", x="prop", script=["self", "r1", "r2"]), dict(name="xi.eh", kind="xinst", x="eh", script=["self", "r1", "r2"]),
                 dict(name="xu.prop", kind="xuser", x="prop", n=2), dict(name="xu.eh", kind="xuser", x="eh", n=2)]),
+    # ---- faults during the hand-over: the delegate refuses the first / a later callback, an instrument
+    dict(name="refuse-first-callback", refuseReg=["g1"],
+         procs=[dict(name="i1", kind="minst"), dict(name="g1", kind="registrar", meter="m1", pre=True),
+                dict(name="g2", kind="registrar", meter="m1", pre=True), dict(name="g3", kind="registrar", meter="m1", pre=True, unreg=True)]),
+    dict(name="refuse-later-callback-and-instrument", refuseReg=["g2"], refuseInst=["c1"],
+         procs=[dict(name="i1", kind="minst"), dict(name="g1", kind="registrar", meter="m1", pre=True, ikind="f64ocounter"),
+                dict(name="g2", kind="registrar", meter="m1", pre=True), dict(name="g3", kind="registrar", meter="m1", pre=True),
+                dict(name="c1", kind="creator", meter="m1", pre=True, n=1), dict(name="c2", kind="creator", meter="m1", pre=True, n=1),
+                dict(name="c3", kind="creator", meter="m1", pre=True, n=1, ikind="i64hist")]),
+    dict(name="refuse-observable-instrument", refuseInst=["g2"],
+         procs=[dict(name="i1", kind="minst", script=["self", "r1"]), dict(name="g1", kind="registrar", meter="m1", pre=True),
+                dict(name="g2", kind="registrar", meter="m1", pre=True, ikind="i64ogauge"), dict(name="g3", kind="registrar", meter="m2", pre=True)]),
+    # ---- overlapping invocations of one callback, each with its own Observer; the callback holds between its observations
+    dict(name="overlapping-invocations", script=["i1@set:1", "n1@invoke:1", "n2@invoke:1", "n1@obs:1", "n2@obs:1", "n1@obs:2", "n2@obs:2"],
+         procs=[dict(name="i1", kind="minst"), dict(name="g1", kind="registrar", meter="m1", pre=True, ikind="f64ogauge"),
+                dict(name="n1", kind="invoker", target="g1", n=1), dict(name="n2", kind="invoker", target="g1", n=1)]),
+    dict(name="overlapping-invocations-live-registration", script=["i1@set:1", "g1@register", "n1@invoke:1", "n1@obs:1", "n2@invoke:1", "n3@invoke:1",
+                                                                   "n1@obs:2", "n3@obs:1", "n2@obs:1", "n2@obs:2", "n3@obs:2"],
+         procs=[dict(name="i1", kind="minst"), dict(name="g1", kind="registrar", meter="m1", kept=True),
+                dict(name="n1", kind="invoker", target="g1", n=1), dict(name="n2", kind="invoker", target="g1", n=1),
+                dict(name="n3", kind="invoker", target="g1", n=1)]),
     # a self-set whose Get ran before, and whose Set runs after, another installer's real install (stores the default
     # provider back: everything obtained from it keeps reaching r1)
     dict(name="race-self-around-install", script=["i1@set:1", "i2@set:1", "c2@meter", "c2@rec:1"],
@@ -180,7 +225,7 @@ def classify(v):
         core = [s for s in sites if not VICTIM.match(s)] or sites   # goroutines merely queued behind the cycle are left out
         return {"kind": "deadlock", "cycle": "|".join(core), "extra": ""}
     sig = {"kind": k}
-    for f in ("sig", "class", "via"):
+    for f in ("sig", "class", "via", "what"):
         if f in v:
             sig[f] = v[f]
     return sig
@@ -195,15 +240,18 @@ def run(ctx):
     # has applied the repair (entry flipped to "fixed") the main family is the Patched model and admits no deadlock
     d1_open = any(k.get("id") == D1_ID and k.get("status") == "known" for k in ctx._known)
     ctx.extra["model_variant"] = "as-is (D1 admitted)" if d1_open else "patched (no deviation admitted)"
-    never = None
+    seen, taken = set(), set()
+
+    def cover(r):   # TLC lists an action only where its process set is non-empty: union over the runs
+        for ln in open(r["out"], errors="replace"):
+            m = re.match(r"<(\w+) line .* of module GlobalDelegate>: (\d+):(\d+)$", ln.strip())
+            if m and m.group(1) not in ("Init", "Next"):
+                seen.add(m.group(1))
+                if int(m.group(2)) > 0:
+                    taken.add(m.group(1))
     for c in fam:
-        r = ctx.tlc(S, "MC_GlobalDelegate", "MC_GlobalDelegate.cfg", defines=c.defines(patched=not d1_open, known=d1_open),
-                    name="mc-" + c.name, timeout=3000, coverage=True)
-        z = set(r["zero_cov"]) - {"Next", "SimNext"}
-        never = z if never is None else (never & z)
-    ctx.extra["actions_never_taken_in_family"] = sorted(never or [])
-    if never:
-        ctx.note_inconclusive("vacuity: actions never taken in any configuration: %s" % sorted(never))
+        cover(ctx.tlc(S, "MC_GlobalDelegate", "MC_GlobalDelegate.cfg", defines=c.defines(patched=not d1_open, known=d1_open),
+                      name="mc-" + c.name, timeout=3000, coverage=True))
     base = FAMILY_QUICK[0]
     # TLC must find the known deadlock in the model of the unpatched code when it is not admitted
     r = ctx.tlc(S, "MC_GlobalDelegate", "MC_GlobalDelegate_NoKnown.cfg", defines=base.defines(known=False), name="mc-noknown",
@@ -211,6 +259,21 @@ def run(ctx):
     ctx.extra["noknown_violates"] = r["violated"]
     if r["violated"] != "Stuck":
         ctx.note_inconclusive("model drift: TLC does not find the D1 deadlock with AllowKnown=FALSE (%s)" % r["out"])
+    dev = {}
+    for label, c, must_violate in DEVIATIONS:
+        r = ctx.tlc(S, "MC_GlobalDelegate", "MC_GlobalDelegate.cfg", defines=c.defines(patched=True, known=False),
+                    name="mc-" + c.name, must_pass=not must_violate, count=not must_violate, timeout=900, coverage=not must_violate)
+        if not must_violate:
+            cover(r)
+        dev[label] = r["violated"]
+        if must_violate and r["violated"] not in ("Contract", "InstConnected", "TracerConnected", "CallbackConnected"):
+            ctx.note_inconclusive("model drift: TLC does not exhibit the %s deviation (%s)" % (label, r["out"]))
+    ctx.extra["deviation_shapes_violate"] = dev
+    never = sorted(seen - taken)
+    ctx.extra["actions_never_taken_in_family"] = never
+    ctx.extra["actions_covered"] = len(taken)
+    if never or len(taken) < 40:
+        ctx.note_inconclusive("vacuity: actions never taken in any configuration: %s (%d taken)" % (never, len(taken)))
     # the proposed repair, re-modelled (Patched): no deadlock at all, no double / missed registration, termination
     # (while D1 is open; afterwards the main family above already is the Patched model)
     for c in (([base, FAMILY_QUICK[1]] + (FAMILY_THOROUGH[:3] if thorough else [])) if d1_open else []):
@@ -233,13 +296,13 @@ def run(ctx):
 
     # ------------------------------------------------------------ spec -> code: behaviours as gate scripts
     scenarios = []
-    sims = [FAMILY_QUICK[0], FAMILY_QUICK[1], FAMILY_QUICK[2], FAMILY_QUICK[4],
+    sims = [FAMILY_QUICK[0], FAMILY_QUICK[1], FAMILY_QUICK[2], FAMILY_QUICK[4], FAMILY_QUICK[6],
             Cfg("s-mt", minst=[["self", "r1"]], creators=[C("c1", pre=True), C("c2", "m2")],
                 registrars=[G("g1", pre=True), G("g2", "m2")], tinst=[["r1", "r2"]],
                 tusers=[U("u1", pre=True), U("u2")], recs=2, spans=2)]
     if thorough:
         sims += FAMILY_THOROUGH[:2] + FAMILY_THOROUGH[4:] + [FAMILY_QUICK[3], FAMILY_QUICK[5]]
-    nsim = 250 if thorough else 24
+    nsim = 250 if thorough else 20
     seen = set()
     stuck_beh = 0
     for c in sims:
@@ -250,12 +313,25 @@ def run(ctx):
                 seen.add(s)
                 b = json.loads(s[len("BEHAVIOUR "):])
                 stuck_beh += 0 if b["alldone"] else 1
-                scenarios.append(dict(name="sim-" + c.name, script=b["script"], procs=c.procs(), perturb=0.0,
-                                      model=dict(alldone=b["alldone"], stuck=b["stuck"])))
+                scenarios.append(c.scenario(b["script"], model=dict(alldone=b["alldone"], stuck=b["stuck"])))
     nbeh = len(scenarios)
     for d in DIRECTED:
         for rep in range(4 if thorough else 2):
             scenarios.append(dict(d, perturb=0.0))
+    # windows without any call-out (no gate possible): Meter() / Tracer() with 10k-50k scope attributes -- the config
+    # computation inside internal/global takes tens of ms -- started together with an installer that is delayed a little
+    nslow = 0
+    for rep_ in range(4 if thorough else 1):
+        for slow, delay in ((10000, 500), (20000, 1500), (30000, 3000), (50000, 1000), (30000, 500), (50000, 5000), (20000, 300)):
+            nslow += 2
+            scenarios.append(dict(name="slow-tracer-race", perturb=0.0,
+                                  procs=[dict(name="ti1", kind="tinst", delayUs=delay), dict(name="u1", kind="tuser", tracer="t1", slow=slow, n=1),
+                                         dict(name="u2", kind="tuser", tracer="t2", pre=True, n=1)]))
+            scenarios.append(dict(name="slow-meter-race", perturb=0.0,
+                                  procs=[dict(name="i1", kind="minst", delayUs=delay), dict(name="c1", kind="creator", meter="m1", slow=slow, n=1),
+                                         dict(name="g1", kind="registrar", meter="m2", slow=slow, unreg=False),
+                                         dict(name="c2", kind="creator", meter="m3", pre=True, n=1)]))
+    ctx.extra["slow_config_race_scenarios"] = nslow
     nrand = 3000 if thorough else 140
     sfile = os.path.join(ctx.work, "scenarios.json")
     json.dump(scenarios, open(sfile, "w"))
@@ -269,7 +345,7 @@ def run(ctx):
     ctx.extra["counters"] = res["counters"]
     ctx.extra["tlc_behaviours_replayed"] = nbeh
     ctx.extra["tlc_behaviours_ending_in_model_deadlock"] = stuck_beh
-    ctx.extra["directed_schedules"] = len(scenarios) - nbeh
+    ctx.extra["directed_schedules"] = len(scenarios) - nbeh - nslow
     ctx.extra["random_scenarios"] = nrand
     ctx.add_samples([{"behaviour_script": scenarios[0]["script"][:40]}] if scenarios else [])
     ctx.add_samples(res["samples"][:1])
@@ -303,7 +379,9 @@ def run(ctx):
         "a blocked scenario counts as a deadlock only if a stop-the-world goroutine dump shows every unfinished scenario "
         "goroutine parked in sync.Mutex.Lock inside internal/global (twice in a row); anything else blocked is inconclusive",
         "data-race freedom is monitored with -race on the replayed schedules in the thorough tier only (auxiliary, not model checking)",
-        "delegate errors (instrument creation / RegisterCallback failing in the SDK) are not part of the model",
+        "Meter()/Tracer() check-then-insert windows contain no call-out and cannot be gated: they are widened with 10k-50k scope "
+        "attributes and hit by volume (slow-*-race scenarios); a hand-over that keeps re-submitting a refused item is cut off "
+        "after three recorded submissions (the contract clause refused-item-resubmitted is the verdict, not the time-out)",
     ]
 
 
